@@ -15,6 +15,11 @@
     * `Loop::iterate` / `Loop::execute` / `execute_common`   …/compound_command/while_loop.rs        → `.loop`, `execLoopN`
     * `subshell::execute` + `subshell_main`           …/compound_command/subshell.rs                 → `.sub`
     * `execute_function_body`                         …/simple_command/function.rs                   → `.call`
+    * `execute_multi_command_pipeline` / `execute_job_controlled_pipeline`   …/command/pipeline.rs  → `.pipe`, `execPipeN`
+    * `for_loop::execute`                             …/compound_command/for_loop.rs                 → `.forLoop`, `execForN`
+    * `case::execute`                                 …/compound_command/case.rs                     → `.caseC`, `execCaseN`
+    * `execute_async` (item.rs) followed by `wait`                                                   → `.async`
+    * `run_trap` / `run_exit_trap` with an action that is such a script                              → `runExitTrapN`
 
   A function call pushes no frame (so `break` inside a function called from a loop leaves the loop, and the
   `Condition` frame of a caller's `if` exempts the function's body from errexit): `.call` only catches `Return`,
@@ -36,6 +41,14 @@ inductive NCmd where
   | neg (c : NCmd)
   | andor (first : NCmd) (rest : List (Bool × NCmd))
   | call (body : List NCmd)
+  -- second half of wave 3
+  | pipe (cmds : List NCmd)                 -- `c1 | c2 | …` (the generator gives two or more commands)
+  | forLoop (wordsErr ro : Bool) (values : Nat) (body : List NCmd)
+      -- `for v in w1 … wn`: the word list does not expand / the loop variable is read-only
+  | caseC (subjectErr : Bool) (items : List (Bool × Bool × List NCmd × CaseCont))
+      -- the subject does not expand; per item: (a pattern matches, evaluating the patterns fails before any
+      -- match, body, continuation)
+  | async (body : List NCmd)                -- `{ body; } & wait`
 
 /-- `impl Command for syntax::List`: the items in turn, `?` on each result -/
 def execSeq {α : Type} (f : St → α → St × Res) : St → List α → St × Res
@@ -119,6 +132,42 @@ mutual
            match y.2 with
            | .continue_ => execAndOrN (execN fuel) y.1 rest
            | r => (y.1.pop, r))
+      | .pipe cmds =>
+        -- `execute_multi_command_pipeline`: every command in its own subshell; under job control the whole
+        -- pipeline runs in one more subshell; `apply_errexit` is the parent's either way
+        let y := execPipeN fuel s.enterJc cmds 0
+        (match y.2 with
+         | .continue_ => (s.leaveJc y.1, (s.leaveJc y.1).applyErrexit)
+         | r => (s.leaveJc y.1, r))
+      | .forLoop wordsErr ro values body =>
+        -- `expand_words` fails: `error.handle(env)`; the `Loop` frame is pushed after the expansion
+        if wordsErr then (s, handleExpansionError s)
+        else
+          let s0 := s.push .loop
+          if values = 0 ∧ !body.isEmpty then ({ s0 with status := SUCCESS }.pop, .continue_)
+          else if values = 0 then (s, .continue_)
+          -- the first assignment to a read-only loop variable: `Handle for expansion::Error`
+          else if ro then (s, handleExpansionError s)
+          else
+            let y := execForN fuel s0 values body
+            (y.1.pop, y.2)
+      | .caseC subjectErr items =>
+        if subjectErr then (s, handleExpansionError s)
+        else
+          let y := execCaseN fuel s items false false
+          (match y.2.1 with
+           | .continue_ => (if y.2.2 then y.1 else { y.1 with status := SUCCESS }, .continue_)
+           | r => (y.1, r))
+      | .async body =>
+        -- `execute_async`: the list runs in a subshell and the shell goes on at once with status 0; `wait`
+        -- without operands then returns 0 when the child is gone. Only the output comes back.
+        let y := execSeq (execN fuel) (s.push .subshell) body
+        (match y.2 with
+         | .outOfFuel => (s, .outOfFuel)
+         | r =>
+           let c2 := y.1.applyResult r
+           let s1 := { s with status := SUCCESS, trace := c2.trace }
+           (s1, s1.applyErrexit))
       | .call body =>
         -- `execute_function_body`: only `Return` is caught; then the tail of `SimpleCommand::execute`
         -- (a function call is a simple command): `apply_errexit`
@@ -154,6 +203,50 @@ mutual
               | .break_ (.continue_ 0) => execLoopN fuel z.1 until_ cond body e
               | _ => execLoopN fuel z.1 until_ cond body z.1.status
           else (s1, (.continue_, e))
+
+  /-- runs each member of a pipeline on a copy of the parent state with a `Subshell` frame; `final`
+      accumulates the pipeline's status (`pipefail`) -/
+  def execPipeN : Nat → St → List NCmd → Nat → St × Res
+    | 0, s, _, _ => (s, .outOfFuel)
+    | _+1, s, [], final => ({ s with status := final }, .continue_)
+    | fuel+1, s, c :: rest, final =>
+      let y := execN fuel (s.push .subshell) c
+      match y.2 with
+      | .outOfFuel => (s, .outOfFuel)
+      | r =>
+        let c2 := y.1.applyResult r
+        let final' := if c2.status ≠ 0 ∨ !s.pipefail then c2.status else final
+        execPipeN fuel { s with trace := c2.trace } rest final'
+
+  /-- the iteration of `for_loop::execute` (the variable itself is not modelled) -/
+  def execForN : Nat → St → Nat → List NCmd → St × Res
+    | 0, s, _, _ => (s, .outOfFuel)
+    | _+1, s, 0, _ => (s, .continue_)
+    | fuel+1, s, n+1, body =>
+      let y := execSeq (execN fuel) s body
+      match loopStep y.2 with
+      | .stop => (y.1, .continue_)
+      | .out r => (y.1, r)
+      | .next => execForN fuel y.1 n body
+
+  /-- `case::execute`; flags: falling through, exit status updated -/
+  def execCaseN : Nat → St → List (Bool × Bool × List NCmd × CaseCont) → Bool → Bool → St × Res × Bool
+    | 0, s, _, _, u => (s, .outOfFuel, u)
+    | _+1, s, [], _, u => (s, .continue_, u)
+    | fuel+1, s, (m, e, body, k) :: rest, falling, u =>
+      -- the patterns of an item are expanded only when the item is not entered by falling through
+      if !falling && e then (s, handleExpansionError s, u)
+      else if !falling && !m then execCaseN fuel s rest false u
+      else
+        let y := execSeq (execN fuel) s body
+        match y.2 with
+        | .continue_ =>
+          let u1 := !body.isEmpty
+          match k with
+          | .break_ => (y.1, .continue_, u1)
+          | .fallThrough => execCaseN fuel y.1 rest true u1
+          | .continue_ => execCaseN fuel y.1 rest false u1
+        | r => (y.1, r, u)
 end
 
 /-- one command line of the `nc` family -/
@@ -172,12 +265,26 @@ def readEvalLoopN (fuel : Nat) (s : St) (executed : Bool) : List NLine → St ×
     | .continue_ => readEvalLoopN fuel x.1 true rest
     | r => (x.1, r)
 
-/-- the tail of `run_as_shell_process` with the EXIT action `probe 99` (or none) -/
-def runShellN (fuel : Nat) (s : St) (trap : Bool) (script : List NLine) : ScOutcome :=
+/-- `run_trap` for the EXIT condition + `run_exit_trap`'s `apply_result`; the action is a script of its own, read
+    by `read_eval_loop` under a `Trap` frame (it may have several lines, and lines that do not parse) -/
+def runExitTrapN (fuel : Nat) (s : St) (action : Option (List NLine)) : St × Res :=
+  match action with
+  | none => (s, .continue_)
+  | some lines =>
+    let prev := s.status
+    let x := readEvalLoopN fuel (s.push .trap) false lines
+    let s1 := x.1.pop
+    let s2 : St := match x.2 with
+      | .break_ (.interrupt (some e)) => { s1 with status := e }
+      | .break_ (.interrupt none) => s1
+      | _ => { s1 with status := prev }
+    (s2.applyResult x.2, x.2)
+
+/-- the tail of `run_as_shell_process`: read-eval loop, `apply_result`, EXIT trap -/
+def runShellN (fuel : Nat) (s : St) (action : Option (List NLine)) (script : List NLine) : ScOutcome :=
   let x := readEvalLoopN fuel s true script
   let s1 := x.1.applyResult x.2
-  let action : Option (List Stmt) := if trap then some [.plain (probeSimple 99)] else none
-  let s2 := if runsExitTrap x.2 then (runExitTrapSc fuel s1 action).1 else s1
+  let s2 := if runsExitTrap x.2 then (runExitTrapN fuel s1 action).1 else s1
   { loopResult := x.2, pre := s1.status, final := s2 }
 
 end YashModel.Errexit
